@@ -61,6 +61,33 @@ private:
 
 typedef Safe_Ptr<PIP_Tree_Node> Safe_Node;
 
+// Shifts by \p n positions the artificial parameters occurring in \p cs
+// and \p aps, i.e., all the space dimensions starting from \p first.
+void
+shift_artificial_parameters(Constraint_System& cs,
+                            PIP_Tree_Node::Artificial_Parameter_Sequence& aps,
+                            const dimension_type first,
+                            const dimension_type n) {
+  if (cs.space_dimension() > first) {
+    Constraint_System new_cs;
+    for (Constraint_System::const_iterator
+           i = cs.begin(), i_end = cs.end(); i != i_end; ++i) {
+      Constraint c(*i);
+      if (c.space_dimension() > first) {
+        c.shift_space_dimensions(Variable(first), n);
+      }
+      new_cs.insert(c);
+    }
+    swap(cs, new_cs);
+  }
+  for (PIP_Tree_Node::Artificial_Parameter_Sequence::iterator
+         i = aps.begin(), i_end = aps.end(); i != i_end; ++i) {
+    if (i->space_dimension() > first) {
+      i->shift_space_dimensions(Variable(first), n);
+    }
+  }
+}
+
 //! Assigns to \p x the positive remainder of the division of \p y by \p z.
 inline void
 pos_rem_assign(Coefficient& x,
@@ -1401,6 +1428,15 @@ PIP_Decision_Node::update_tableau(
     const Constraint_Sequence& input_cs,
     const Variables_Set& parameters) {
 
+  if (pip.external_space_dim > pip.internal_space_dim) {
+    // New problem variables and/or parameters have been added:
+    // the artificial parameters have to be renumbered.
+    shift_artificial_parameters(constraints_, artificial_parameters,
+                                pip.internal_space_dim,
+                                pip.external_space_dim
+                                - pip.internal_space_dim);
+  }
+
   true_child->update_tableau(pip,
                              external_space_dim,
                              first_pending_constraint,
@@ -2457,6 +2493,12 @@ PIP_Solution_Node
   const dimension_type new_num_params = parameters.size();
   const dimension_type num_added_params = new_num_params - old_num_params;
   const dimension_type num_added_vars = num_added_dims - num_added_params;
+
+  if (num_added_dims > 0) {
+    // The artificial parameters have to be renumbered.
+    shift_artificial_parameters(constraints_, artificial_parameters,
+                                pip.internal_space_dim, num_added_dims);
+  }
 
   // Resize the two tableau matrices.
   if (num_added_vars > 0) {
